@@ -2,7 +2,8 @@ CONSTANTS
   VNeg = 8
   VMax = 8
   MaxLen = 1000
-  AllowKF = FALSE
+  MaxIdle = 1000
+  AllowKF = TRUE
   Classes = {"BoolHigh", "BoolLow", "Floor", "Ceil", "WhenOutsideBand", "OutBand", "WhenChanged"}
 SPECIFICATION TraceSpec
 INVARIANT C30_Exclusive
